@@ -259,7 +259,7 @@ RULE_ENGINE = ('every accepted definition of the repo / curated / seeded random 
                'self-loop run lengths 0..17 and around multiples of 8, random token-biased inputs with noise; compared: %s')
 
 
-def emitted_stage(res, tier, prop, judge_tags, report_shape=False, leaf_bodies=False, report_rejected=None):
+def emitted_stage(res, tier, prop, judge_tags, report_shape=False, leaf_bodies=False, report_rejected=None, only_groups=None):
     """Translator tie K12: the token text emitted by both code generators for every usable definition of the
     corpora is parsed (lib/genparse.py, strict template match) into the program IR of Engine/Prog.v and the
     extracted checker prog_ok relates it to the captured graph (theorems C06_emitted_is_model / _is_ref).
@@ -278,6 +278,8 @@ def emitted_stage(res, tier, prop, judge_tags, report_shape=False, leaf_bodies=F
     eng = os.path.join(VERIF, 'corpus', 'engine')
     groups = [('repo', build.repo_corpus_files()), ('randgraph-%d-%d' % (sd, n), [randp]),
               ('curated-engine', [os.path.join(eng, f) for f in sorted(os.listdir(eng)) if f.endswith('.rs')])]
+    if only_groups is not None:
+        groups = only_groups
     rng = random.Random(sd * 31 + 5)
     nshape = 0; nbad = 0; nok = 0; nrep = 0
     shapes = {}; leafshapes = {}
@@ -542,7 +544,7 @@ def k4_leaf_languages(res, tier, drv, caps):
 
 
 def check_C01(tier):
-    return engine_property('C01', tier, ['C01_maximal_munch', 'C01_stream_eq_spec', 'C01_construction_correct', 'C01_maximal_munch_built', 'C01_bisimilar_graphs_agree', 'C01_merged_class_is_union', 'C01_merged_class_canonical', 'C01_edge_condition_exact', 'C01_dedup_preserves_walks', 'C01_full_construction_correct', 'C01_emitted_code_maximal_munch'], ['dfa_ok', 'sim_ok', 'exact_ok'], [certs.TH_C01, certs.TH_C01S, certs.TH_C01B], ['tc', 'sm'], (0,),
+    return engine_property('C01', tier, ['C01_maximal_munch', 'C01_stream_eq_spec', 'C01_construction_correct', 'C01_maximal_munch_built', 'C01_bisimilar_graphs_agree', 'C01_merged_class_is_union', 'C01_merged_class_canonical', 'C01_edge_condition_exact', 'C01_dedup_preserves_walks', 'C01_full_construction_correct', 'C01_emitted_code_maximal_munch'], ['dfa_ok', 'sim_ok', 'exact_ok'], [certs.TH_C01, certs.TH_C01S, certs.TH_C01B], ['tc', 'sm', 'tcsafe'], (0,),
                            {'ok-item', 'spec-ok-item', 'graph-differs'}, {'ok-item'},
                            RULE_ENGINE % ('dfa_ok+sim_ok', 'Ok items (variant, span) and item kinds, per feature set, against the graph executor and the DFA-level specification'),
                            ASSUME_ENGINE)
@@ -636,17 +638,76 @@ def check_C03(tier):
                            ASSUME_ENGINE)
 
 
+def chunked_stage(res, tier, sets, fss):
+    """The last sentence of C07 on the compiled lexers: the input is fed through a random schedule of growing buffers
+    (harness mode 8: a partial lexer per buffer, resumed where the previous one reported None; an ordinary lexer at the
+    end) and the items with their spans, and the final None, must be those of the one-shot lexer of the same build.
+    (The model-level statement for every schedule is C07_chunked_is_oneshot.)"""
+    rng = random.Random(seed() * 7 + 77)
+    nbad = 0
+    # error values are not compared: the corpus error callback prints the span it sees, which is relative to the buffer
+    # slice the harness hands to each lexer
+    norm = lambda items: [(x[0], x[1] if x[0] else None, x[2], x[3]) for x in items]
+    for label, h, enums in sets:
+        for fs in fss:
+            exe, caps = h[fs]
+            lines = []; meta = {}
+            for en in sorted(caps):
+                c = caps[en]
+                if not ce.usable(c):
+                    continue
+                codes = engine.behaviour_codes(c)
+                if None in codes or any(x in (25, 26) for x in codes):
+                    continue
+                ps = [p for p in ce.make_probes(c, rng, 'quick') if len(p) >= 2 and (not c.utf8 or probes.is_utf8(p))]
+                rng.shuffle(ps)
+                for i, p in enumerate(ps[:25 if tier == 'quick' else 250]):
+                    cuts = [k for k in range(1, len(p)) if not c.utf8 or (p[k] & 0xC0) != 0x80]
+                    if not cuts:
+                        continue
+                    ks = sorted(rng.sample(cuts, min(len(cuts), rng.randint(1, 4))))
+                    pid = '%s.%d' % (en, i)
+                    lines.append('P c.%s %s 8 %s %s' % (pid, en, p.hex(), ','.join(map(str, ks))))
+                    lines.append('P o.%s %s 0 %s' % (pid, en, p.hex()))
+                    meta[pid] = (en, p, ks)
+            out = run_lines(exe, lines, 'P') if lines else {}
+            for pid, (en, p, ks) in meta.items():
+                a = out.get('c.' + pid); b = out.get('o.' + pid)
+                res.count('chunked_schedules_run')
+                if a is None or b is None:
+                    bad = 'no result (%s)' % out.get('__crash__', '')[:200]
+                else:
+                    ra = engine.parse_real_line(a); rb = engine.parse_real_line(b)
+                    bad = None
+                    if ra['panic'] is not None or rb['panic'] is not None:
+                        bad = 'panic: %s' % (ra['panic'] or rb['panic'])
+                    elif ra['bad_slice']:
+                        bad = 'a partial lexer reported None with a non-empty span, or slice() disagrees'
+                    elif norm(ra['items']) != norm(rb['items']):
+                        k = next((j for j, (x, y) in enumerate(zip(norm(ra['items']), norm(rb['items']))) if x != y), min(len(ra['items']), len(rb['items'])))
+                        bad = 'items differ from item %d on: chunked %r, one-shot %r' % (k, ra['items'][k:k + 3], rb['items'][k:k + 3])
+                    elif ra['finals'][:1] != rb['finals'][:1]:
+                        bad = 'final None at %r, one-shot %r' % (ra['finals'][:1], rb['finals'][:1])
+                if bad:
+                    nbad += 1
+                    if nbad <= 4:
+                        res.violation(p, '%s/%s input %r fed as buffers ending at %r then whole: %s' % (en, fs, p, ks, bad),
+                                      dict(definition=ce.enum_source(enums, en), enum=en, featureset=fs, input_hex=p.hex(), input=repr(p), schedule=ks, chunked=a, oneshot=b))
+    res.oblige(nbad == 0)
+
+
 def check_C07(tier):
     res = Result('C07', tier)
     framework(res, ['C07_next_prefix_safe', 'C07_next_prefix_none', 'C07_determined_scan', 'C07_prompt_one_byte', 'C07_prompt_strict', 'C07_no_test_acts', 'C07_stream_prefix', 'C07_partial_runs_end', 'C07_chunked_is_oneshot'])
     fss = ['tc', 'sm']
     sets = ce.compiled_sets(tier, fss)
-    failing, drv = cert_stage(res, tier, ['dfa_ok', 'sim_ok', 'exact_ok', 'prompt_ok', 'prompt_strict_ok'], [], 'C07', curated_caps(sets, 'tc'))
+    failing, drv = cert_stage(res, tier, ['dfa_ok', 'sim_ok', 'exact_ok', 'prompt_ok', 'prompt_strict_ok'], [certs.TH_C07C], 'C07', curated_caps(sets, 'tc'))
     for c, name in failing[:6]:
         res.violation(None, 'certificate %s fails for %s' % (name, c.id),
                       dict(definition=c.source, definition_id=c.id, no_longer_checks='certificate %s (promptness / exactness of partial lexing) for %s' % (name, c.id)),
                       found_input=False)
     emitted_stage(res, tier, 'C07', {'partial'})
+    chunked_stage(res, tier, sets, fss)
     viol = ce.run_k2_partial(res, sets, fss, tier, drv)
     enums_by_label = {label: enums for label, h, enums in sets}
     seen = 0
@@ -665,7 +726,8 @@ def check_C07(tier):
     res.cov['rule'] = ('for every compiled definition, generated inputs up to a length bound and EVERY split point (char boundaries for str): real partial lexer on the prefix '
                        'vs real one-shot lexer on the whole input (items committed before None, empty span at None, position of None) and vs the model; '
                        'promptness: certificate prompt_ok on every paired state of every corpus definition')
-    res.assumptions += ASSUME_ENGINE + ['promptness: C07_determined_scan + C07_prompt_one_byte give "determined => acts now or after any one more byte" under prompt_ok; the converse (a state that waits is not determined) is not stated as a theorem',
+    res.assumptions += ASSUME_ENGINE + ['promptness: C07_determined_scan + C07_prompt_one_byte give "determined => acts now or after any one more byte" under prompt_ok, C07_prompt_strict "acts now" under prompt_strict_ok (required of every definition without look-around)',
+                                         'chunking schedules: C07_chunked_is_oneshot is a theorem about the model for every schedule; the compiled lexers are compared for every single split of every probe (the step of its induction) and on random multi-buffer schedules (harness mode 8)',
                                          'callbacks that bump beyond the prefix panic in the real code; the theorem quantifies over oracles and is vacuous for such calls']
     return res.finish('./vcheck C07 --tier ' + tier)
 
@@ -725,7 +787,7 @@ def check_C06(tier):
     exe_sm = dict(sets[0][1])['sm'][0]
     reps = 1_000_000 if tier == 'quick' else 4_000_000
     for en, unit in (('SelfLoops', b'a'), ('SelfLoops', b' '), ('KwIdent', b' '), ('KwIdent', b'fn ')):
-        r = sh([exe_sm, 'stack', en, '128', unit.hex(), str(reps)], check=False, timeout=600)
+        r = sh([exe_sm, 'stack', en, '128', unit.hex(), str(reps)], check=False, timeout=600, mem_gib=3)
         ok = r.returncode == 0 and 'STACK true' in r.stdout and ('end=%d' % (len(unit) * reps)) in r.stdout
         res.oblige(ok)
         res.count('stack_runs')
@@ -741,7 +803,7 @@ def check_C06(tier):
 def check_C20(tier):
     res = Result('C20', tier)
     framework(res, ['C20_reads_monotone_linear', 'C20_emitted_reads_monotone_linear', 'C06_opt_is_ref'])
-    fss = ['tc', 'sm']
+    fss = ['tc', 'sm', 'tcsafe']     # the forbid_unsafe build reads through the same Lexer::read
     sets = ce.compiled_sets(tier, fss)
     drv = build.extraction_build()
     # C20_emitted_reads_monotone_linear speaks about every program the translator can read off the emitted code:
@@ -774,7 +836,7 @@ def run_lines(exe, lines, prefix):
     pth = os.path.join(d, 'cmd_%d_%s.txt' % (os.getpid(), prefix))
     open(pth, 'w').write('\n'.join(lines) + '\n')
     try:
-        r = sh([exe, pth], check=False, timeout=120 + len(lines) // 20)
+        r = sh([exe, pth], check=False, timeout=120 + len(lines) // 20, mem_gib=3)
     except subprocess.TimeoutExpired as e:
         class R: pass
         r = R(); r.stdout = (e.stdout.decode('utf8', 'replace') if isinstance(e.stdout, bytes) else (e.stdout or '')); r.returncode = 'timeout'
@@ -889,6 +951,10 @@ def check_C15(tier):
             extra = set(rng.randrange(U64) for _ in range(4 if tier == 'quick' else 40))
             for n in sorted(ns | wraps | extra):
                 cases.append((en, utf8, data, k, n))
+            # the same rule holds for a partial lexer (Lexer::new_partial): harness convention k + 1000
+            if k <= 2:
+                for n in sorted(set(range(0, L + 3)) | set([L + 9, 100, U64 - 1, U64 - 2, 1 << 63])):
+                    cases.append((en, utf8, data, k + 1000, n))
     lines = ['B c%d %s %s %d %d' % (i, en, data.hex(), k, n) for i, (en, utf8, data, k, n) in enumerate(cases)]
     real = {b: run_lines(exe, lines, 'B') for b, exe in exes.items()}
     # positions before the bump are observed (they are the engine's business), the model decides the bump
@@ -929,7 +995,7 @@ def check_C15(tier):
                 nbad += 1
                 if nbad <= 6:
                     key = None
-                    res.violation(key, '%s %s/%s input %r after %d next(): bump(%d): %s' % (en, b[0], b[1], data, k, n, bad),
+                    res.violation(key, '%s %s/%s input %r %safter %d next(): bump(%d): %s' % (en, b[0], b[1], data, 'partial lexer, ' if k >= 1000 else '', k % 1000, n, bad),
                                   dict(enum=en, featureset=b[0], profile=b[1], input_hex=data.hex(), nexts=k, bump=n, observed=r,
                                        expected=dict(ok=bool(mok), start=ms, end=me)))
     res.oblige(nbad == 0)
@@ -1605,6 +1671,7 @@ HUGE_PATTERNS = [
     '(\\b{4294967295}){4294967295}', '(a{0}){4294967295}{4294967295}', '(a{4294967295}){0}',
     'a{1000}', '(?:ab){1000000}c{3}', '(a{3}){4}', '(a|bc){2,}d', '[a-z]{7}\\d{2}', 'a{4294967295}', '(a{65536}){65536}', '(a{65536}){65535}',
     '(?:é{3}){4}', '(?i:k){3}', 'a+$', '(a.*)+', '(.)*x', 'x.*?y', '(?s:.)+z',
+    '(?:xyz|)[a-z]+', '[a-z][0-9]|[a-z][0-9][a-z]', '(|a)b', '(a||b)c', '(?:x|)[a-z][a-z]', 'ab|abc|abcd', '[α-ω]', 'é', '[α-ω][a-z]', 'λ[0-9]', '日本',
 ]
 
 
@@ -1781,7 +1848,8 @@ def check_C10(tier):
     defs = []   # (name, source, kind, info)
     fixed = ['mask', 'k', 's', 'KS', 'Kelvin', 'ſ', 'K', 'ß', 'ǆ', 'σς', 'i', 'I', 'İ', 'a.b', '(x)', 'a|b', '[k]', 'k+', 's*', '\\', '^$', '{2}', '-~', '#&',
              '<>', '=>', 'br>', '</a', 'a<b', '!"%', "',/", ':;@', '_`=', 'b<', 'B>z',
-             '\u01c5-1', '\u01c5', '\u01c8_', '\u1f88']          # titlecase letters: neither lower nor upper case, yet they fold
+             '\u01c5-1', '\u01c5', '\u01c8_', '\u1f88',
+             '\u03c0', '\u03c1', '\u0570\u0561\u0575', '\u24d0', '\u03b8', '\u03c6']          # titlecase letters: neither lower nor upper case, yet they fold
     for i in range(n):
         lit = fixed[i] if i < len(fixed) else fg.random_literal(rng)
         defs.append(('TokS%d' % i, '#[derive(Logos)] enum TokS%d { #[token(%s)] A, #[regex("[0-9]+")] N }' % (i, fg.rust_str_lit(lit)), 'tok', dict(lit=lit.encode('utf8'), bytes=False)))
@@ -1851,6 +1919,9 @@ def check_C10(tier):
             pairs.append(dict(tag='TokSI%d-companion' % i, cap=b, leaf=1, ref=equiv.RefDfa(a.dfa['states'], a.dfa['start']), refleaf=1, source=b.source,
                               describe='ignore(case) on one token must not change the other pattern'))
     bisim_stage(res, drv, pairs, 'C10')
+    # the code emitted for the generated definitions is the program of their graphs (translator K12 + prog_ok): the byte
+    # tests rendered for case-folded classes (pairs of bytes, ranges with holes) accept exactly the bytes of the class
+    emitted_stage(res, tier, 'C10', None, report_shape=True, only_groups=[('c10gen-%d-%d' % (seed(), n), [src])])
     # nothing else changes: ignore(case) leaves the priorities of both leaves as they are (2 x byte length for the token)
     nprio = 0
     for i in range(n):
@@ -1996,6 +2067,11 @@ def check_C11(tier):
     # flags in force at the reference (verbose mode) apply to the included text exactly as they would to the inlined group
     for subs, pats in [([('ws', 'a b', True)], ['(?x)(?&ws) c', '(?x: (?&ws) ) d', '(?&ws)c']), ([('h', 'a#b', True)], ['(?x)(?&h)c']),
                        ([('sp', 'x y', True), ('spp', '(?&sp) z', True)], ['(?x)(?&spp)!', '(?&spp)!'])]:
+        for p in pats:
+            cases.append((subs, p, True))
+    # a later subpattern may use any earlier one, whatever their names are
+    for subs, pats in [([('alpha', '[a-zA-Z]', True), ('digit', '[0-9]', True), ('alphanum', '(?&alpha)|(?&digit)', True)], ['(?&alphanum)+', '(?&digit)(?&alphanum)']),
+                       ([('z', 'x', True), ('m', '(?&z)y', True), ('a', '(?&m)(?&z)', True)], ['(?&a)!', '(?&m)?(?&a)'])]:
         for p in pats:
             cases.append((subs, p, True))
     icase_cases = set()
@@ -2214,6 +2290,8 @@ def check_C18(tier):
     sforced = [['skip(r" +", count_blanks)', 'skip r"[ \\t]+"'], ['skip("#", priority = 9)', 'skip("#+", priority = 9, callback = hashes)', 'extras = u8'],
                ['skip " "', 'skip("[a-c]+", note_abc)', 'skip("[b-d]+", priority = 3)'], ['skip " "', 'skip("\\t", priority = 3)', 'skip r"[ \\t]+"'],
                ['skip("[a-c]+", note_abc)', 'skip("[b-d]+x")', 'skip " "'],
+               ['skip("[a-c].*x", allow_greedy = true)', 'skip "#.*"'], ['skip("//.*", allow_greedy = true)', 'skip("[0-9].*", priority = 3)', 'extras = u8'],
+               ['skip("[a-c].*x", allow_greedy = true)', 'skip("#[^x]+", allow_greedy = false)', 'skip "%.+"'],
                ['utf8 = false', 'skip(b" +", saw_space)', 'skip(b"\\t+", saw_tab)'], ['skip(b"#+", hashes)', 'utf8 = false', 'skip(b" +", saw_space)', 'extras = u8']]
     sgroups = []
     for it_ in range(10 if tier == 'quick' else 80):
@@ -2421,7 +2499,16 @@ def c17_sources(rng, n):
             vs.append('    Plain,')
         lt = "<'a>" if any("'a" in v for v in vs) else ''
         vis = rng.choice(['pub ', '', 'pub(crate) '])
-        out.append('\n'.join(attrs) + '\n%senum Tok%d%s {\n%s\n}\n' % (vis, i, lt, '\n'.join(vs)))
+        where = ''
+        if rng.random() < 0.25:
+            # generic parameters with a where clause (the item must come back whole)
+            if lt:
+                where = " where 'a: 'static"
+            else:
+                lt = '<T>'; where = ' where T: Copy + Default'
+                attrs.append('#[logos(type T = u32)]')
+                vs.append('    #[regex("g[0-9]+", |_| T::default())]\n    Gen(T),')
+        out.append('\n'.join(attrs) + '\n%senum Tok%d%s%s {\n%s\n}\n' % (vis, i, lt, where, '\n'.join(vs)))
     return out
 
 
@@ -2727,6 +2814,12 @@ def check_C16(tier):
     rg = os.path.join(d, 'randgraph.rs')
     if os.path.exists(rg):
         files.append(rg)
+    # the cross product of attribute forms (rejected definitions with their diagnostics included)
+    import gen as _gen
+    cp = os.path.join(cache_dir('gen', 'cross'), 'cross.rs')
+    if not os.path.exists(cp):
+        open(cp, 'w').write('\n'.join(_gen.cross_corpus()) + '\n')
+    files.append(cp)
     lst = os.path.join(cache_dir('c16'), 'files.lst')
     open(lst, 'w').write('\n'.join(files) + '\n')
     nproc = 3 if tier == 'quick' else 6
